@@ -51,6 +51,11 @@ fn main() {
         driver::cleanup_scratch();
         return;
     }
+    if args[1] == "debug-golden" {
+        driver::configure("regtest");
+        props::c02::debug_golden();
+        return;
+    }
     if args[1] == "child-start" {
         props::c20::child_main(&args[2..]);
         return;
